@@ -91,8 +91,11 @@ class C07(Check):
     trusted_base = (
         'hand-written model lean/CssVerif/Model/Codec.lean of detectencoding_str / detectencoding_unicode / '
         '_fixencoding, tied to cssutils/codec.py by the exhaustive class-level correspondence of this run',
-        'CPython codecs (utf-8/16/32, single-byte) are the inner codecs: their round trip and chunk invariance '
-        'are assumed by the model and exercised (not proved) by the implementation-side oracle',
+        'hand-written model lean/CssVerif/Model/CodecInner.lean of CPython 3.12 codecs under errors="strict" (utf-8, '
+        'utf-8-sig, utf-16/32 with BOM sniffing, -le/-be, latin-1, ascii; stateless and incremental objects), tied to '
+        'the running interpreter by the differential of tools/harness/c07_inner.py over every chunking of short inputs',
+        'other inner codecs (cp1252, koi8-r, ...) and CPython\'s alias table stay a parameter of the model (structure '
+        'Inner); they are exercised on the implementation side only',
     )
     assumptions = ('the detector distinguishes bytes only through equality with ten constants (checked: random '
                    'members of the "other" class give the same answers as the representative)',)
@@ -111,6 +114,7 @@ class C07(Check):
         ctx.phase(self.corr_incdec, ctx, c, rng)
         ctx.phase(self.corr_incenc, ctx, c, rng)
         ctx.phase(c07_inner.corr_inner, self, ctx, c, rng)
+        ctx.phase(c07_inner.corr_css_concrete, self, ctx, c, rng)
         ctx.phase(self.oracle_spec, ctx, c, rng)
         ctx.phase(self.oracle_roundtrip_chunking, ctx, c, rng)
 
@@ -438,6 +442,20 @@ class C07(Check):
         return out
 
     # ------------------------------------------------------------------------------------------
+    def known(self, ctx, finding):
+        c = impl()
+        w = finding['witness']['data']
+        if finding['id'] == c07_inner.FINDING:
+            parts = [bytes.fromhex(x) for x in w['chunks']]
+            one = codecs.getdecoder('css')(b''.join(parts), encoding=w['encoding'])[0]
+            d = c.IncrementalDecoder(encoding=w['encoding'])
+            try:
+                got = ''.join(d.decode(p, False) for p in parts) + d.decode(b'', True)
+            except UnicodeError:
+                got = None
+            return got != one
+        return True
+
     def replay(self, ctx, data):
         c = impl()
         w = data.get('witness') or {}
@@ -450,10 +468,43 @@ class C07(Check):
             early = c.detectencoding_str(p, False)
             if early[0] is not None and early != c.detectencoding_str(full, True):
                 ctx.violate(data.get('clause'), w, {'early': early})
+        elif w.get('call') in ('IncrementalDecoder', 'IncrementalEncoder') and 'chunks' in w and 'cuts' not in w:
+            self.replay_chunks(ctx, c, data, w)
         elif data.get('kind') == 'impl-violates' and 'text' in w:
             self.one_roundtrip(ctx, c, ctx.sub_rng('replay'), w['text'], w['encoding'])
         else:
             self.run(ctx)
+
+
+def _replay_chunks(self, ctx, c, data, w):
+    if w['call'] == 'IncrementalDecoder':
+        parts = [bytes.fromhex(x) for x in w['chunks']]
+        kw = {'encoding': w.get('encoding'), 'force': w.get('force', True)}
+        try:
+            one = codecs.getdecoder('css')(b''.join(parts), **kw)[0]
+        except UnicodeError:
+            one = None
+        d = c.IncrementalDecoder(**kw)
+        try:
+            got = ''.join(d.decode(p, False) for p in parts) + d.decode(b'', True)
+        except UnicodeError:
+            got = None
+    else:
+        parts = w['chunks']
+        try:
+            one = codecs.getencoder('css')(''.join(parts), encoding=w.get('encoding'))[0]
+        except UnicodeError:
+            one = None
+        e = c.IncrementalEncoder(encoding=w.get('encoding'))
+        try:
+            got = b''.join(x for x in [e.encode(p, False) for p in parts] + [e.encode('', True)] if x)
+        except UnicodeError:
+            got = None
+    if got != one:
+        ctx.violate(data.get('clause'), w, {'incremental': repr(got), 'one_shot': repr(one)})
+
+
+C07.replay_chunks = _replay_chunks
 
 
 def open_header(text):
